@@ -51,6 +51,9 @@ var effectOps = map[string]string{
 	modPath + "lib/resolvconf.update": "Update",
 	// sockets and the ARP prober (lib/rsocks, lib/arpping seen from lib/server)
 	modPath + "lib/rsocks.GetIPRecvSock":  "OpenIPRecvSock",
+	modPath + "lib/rsocks.GetUnicastSendSock": "OpenUnicastSendSock",
+	modPath + "lib/rsocks.GetIPSendSock":      "OpenIPSendSock",
+	"math/rand.Int63":                         "RandInt63",
 	modPath + "lib/rsocks.GetARPRecvSock": "OpenARPRecvSock",
 	modPath + "lib/arpping.Ping":          "Ping",
 	"(context.Context).Err": "CtxErr",
@@ -146,8 +149,9 @@ func (x *X) envDef() string {
 	doc["CliEnv"] = "The world outside the translated client automaton (lib/client/dclient): sockets, the exchange primitive, libif, the prober, callbacks, clock, rate limiter."
 	doc["NewEnv"] = "The world outside the translated constructor server.New: the interface's address and the lease database being configured."
 	doc["ResEnv"] = "The world outside the translated resolvconf.Run: the process environment and the atomic file update (C20)."
+	doc["SendEnv"] = "The world outside the translated sender goroutine of the client (sendMessage/sendSocket): sockets, the prober, the random source, the timer-or-cancel wait."
 	doc["RunEnv"] = "The world outside the translated receive loop and prober wrapper of lib/server: the receive socket, the handler goroutines it starts, the ARP prober."
-	for _, env := range []string{"Env", "DbEnv", "ArpEnv", "RunEnv", "CliEnv", "NewEnv", "ResEnv"} {
+	for _, env := range []string{"Env", "DbEnv", "ArpEnv", "RunEnv", "CliEnv", "NewEnv", "ResEnv", "SendEnv"} {
 		n := 0
 		for _, o := range ops {
 			if o.env == env {
@@ -177,6 +181,9 @@ func (c *fctx) envName() string {
 	}
 	if strings.HasSuffix(c.fi.pkg.PkgPath, "lib/server") && c.fi.obj.Name() == "New" {
 		return "NewEnv"
+	}
+	if strings.HasSuffix(c.fi.pkg.PkgPath, "lib/client/dclient") && (c.fi.obj.Name() == "sendMessage" || c.fi.obj.Name() == "sendSocket") {
+		return "SendEnv"
 	}
 	return envOfPkg(c.fi.pkg.PkgPath)
 }
